@@ -314,7 +314,10 @@ PROPS["C08"] = {
     "harnesses": [
         H(KW, "c08::c08_announce_n0", _C08A, "N=0", [], tier="thorough", cost=600, **_WS),
         H(KW, "c08::c08_announce_n1", _C08A, "N=1 (ownership)", [], cost=1000,
-          native_tests={"owned by another connection": ("replay-ws", "c08_ownership_other_worker_same_slot")}, **_WS),
+          native_tests={"owned by another connection": ("replay-ws", "c08_ownership_other_worker_same_slot"),
+                        "seeder count": ("replay-ws", "c08_seeder_to_leecher_counts"), "stored seeders": ("replay-ws", "c08_seeder_to_leecher_counts"),
+                        "complete != stored": ("replay-ws", "c08_seeder_to_leecher_counts"), "incomplete != stored": ("replay-ws", "c08_seeder_to_leecher_counts"),
+                        "announce must set deadline": ("replay-ws", "c10_reannounce_refreshes_deadline")}, **_WS),
         H(KW, "c08::c08_scrape_n1_k1", "scrape: exactly one reply to the sender (pending id kept); requested (within max_scrape_torrents) and stored <=> listed with true counts; nothing else listed", "N=1, 1 hash", [], cost=60, mem_gb=20),
         H(KW, "c08::c08_scrape_n1_k2", "scrape as above", "N=1, 2 hashes", [], tier="thorough", cost=120, mem_gb=20),
         H(KW, "c08::c08_clean_n0", "TorrentMap::clean: peer kept <=> deadline > now; pending offer kept <=> its deadline > now; forbidden / empty torrent dropped", "N=0", [], cost=60, mem_gb=20),
@@ -337,11 +340,13 @@ PROPS["C09"] = {
     "assumptions": PROPS["C08"]["assumptions"],
     "harnesses": [
         H(KW, "c08::c09_offers_n0_k1", _C09O, "N=0, 1 offer", [], tier="thorough", cost=600, **_WS),
-        H(KW, "c08::c09_offer_one", "one offer from a fresh sender with one stored receiver: exactly one OfferOutMessage to the receiver's own connection (unless max_offers==0 or stopped), payload = (sender id, offer id, info hash), sender records exactly (receiver, offer id) with deadline clock+max_offer_age, reply last", "N=1 receiver, 1 offer, max_offers 0..2", [], cost=900, **_WS),
+        H(KW, "c08::c09_offer_one", "one offer from a fresh sender with one stored receiver: exactly one OfferOutMessage to the receiver's own connection (unless max_offers==0 or stopped), payload = (sender id, offer id, info hash), sender records exactly (receiver, offer id) with deadline clock+max_offer_age, reply last", "N=1 receiver, 1 offer, max_offers 0..2", [], cost=900,
+          native_tests={"offer must go to the receiving peer": ("replay-ws", "c09_answer_addressed_to_offerer")}, **_WS),
         H(KW, "c08::c09_offers_n1_k1", _C09O, "N=1, 1 offer (general harness)", [], tier="thorough", cost=1200, mem_gb=54, timeout=3600),
         H(KW, "c08::c09_offers_n1_k2", _C09O, "N=1, 2 offers", [], tier="thorough", cost=1200, **_WS),
         H(KW, "c08::c09_answer_n0", _C09A, "N=0", [], tier="thorough", cost=600, **_WS),
-        H(KW, "c08::c09_answer_n1", _C09A, "N=1", [], cost=1000, **_WS),
+        H(KW, "c08::c09_answer_n1", _C09A, "N=1", [], cost=1000,
+          native_tests={"answer must go to the offering peer": ("replay-ws", "c09_answer_addressed_to_offerer"), "answered offer still pending": ("replay-ws", "c09_answer_addressed_to_offerer")}, **_WS),
     ],
 }
 PROPS["C10"]["harnesses"] += [dict(h) for h in PROPS["C08"]["harnesses"][4:6]]
